@@ -171,12 +171,17 @@ def leak(key, rss=10 ** 9):
     return (key, "leak")
 
 
+def _depth():
+    g = K.S.cur.proc.info.get("globals")
+    return None if g is None else g.get("_CURRENT_DEPTH")
+
+
 def init(tag):
-    _log("init", tag)
+    _log("init", tag, _depth())
 
 
 def init_fail(tag):
-    _log("init", tag)
+    _log("init", tag, _depth())
     raise RuntimeError("initializer failed")
 
 
